@@ -348,6 +348,10 @@ func (p *Peer) unpackFrame(content []byte) (MsgCode, []byte, error) {
 	if err != nil {
 		return 0, nil, err
 	}
+	// the plain text may be shorter than the message code, e.g. a frame which contains only padding
+	if len(originData) < 4 {
+		return 0, nil, ErrUnavailablePackage
+	}
 	code := binary.BigEndian.Uint32(originData[:4])
 	if len(originData) == 4 {
 		return MsgCode(code), nil, nil
